@@ -75,11 +75,11 @@ type Field struct {
 // Node is one decoded option (or sub-option, or embedded DHCPv4 option).
 type Node struct {
 	Code     uint16
-	Name     string   // layout name: "IA_NA", "status-code", … ; "opaque" for unknown codes
-	Fields   []Field  // typed leaves in wire order
-	Children []*Node  // nested options in wire order (DHCPv4 options: ascending code)
-	Inner    *Msg     // option 9 (relay-msg): the encapsulated message
-	Raw      []byte   // the option payload as found on the wire (informational; not compared by Equal)
+	Name     string  // layout name: "IA_NA", "status-code", … ; "opaque" for unknown codes
+	Fields   []Field // typed leaves in wire order
+	Children []*Node // nested options in wire order (DHCPv4 options: ascending code)
+	Inner    *Msg    // option 9 (relay-msg): the encapsulated message
+	Raw      []byte  // the option payload as found on the wire (informational; not compared by Equal)
 }
 
 // Msg is a decoded DHCPv6 message or relay message.
@@ -560,5 +560,38 @@ func DedupORONode(n *Node) {
 			}
 			n.Fields[i].Val = out
 		}
+	}
+}
+
+// PathClass strips the list indices from a path returned by Equal, giving a
+// stable class for fingerprints: "options[3](IA_NA).children[0](IAADDR).Valid"
+// becomes "options(IA_NA).children(IAADDR).Valid".
+func PathClass(path string) string {
+	var sb strings.Builder
+	skip := false
+	for i := 0; i < len(path); i++ {
+		switch {
+		case path[i] == '[':
+			skip = true
+		case path[i] == ']' && skip:
+			skip = false
+		case !skip:
+			sb.WriteByte(path[i])
+		}
+	}
+	return sb.String()
+}
+
+// DedupOROTree applies the ORO normalisation to n and everything below it.
+func DedupOROTree(n *Node) {
+	if n == nil {
+		return
+	}
+	DedupORONode(n)
+	for _, ch := range n.Children {
+		DedupOROTree(ch)
+	}
+	if n.Inner != nil {
+		DedupORO(n.Inner)
 	}
 }
